@@ -81,7 +81,8 @@ def main():
     res = {}
     for ws, b, args in checks:
         rc, out, dt = sh(f"/verif/tools/mutant_run.sh {ws} {b} {WT} {' '.join(args)} 2>&1 | grep -E 'VIOLATION|^\\[C|mutant_run: exit|regression case|^C[0-9]+/' | cut -c1-260 | head -12", cwd="/verif", timeout=7200)
-        caught = "mutant_run: exit=1" in out or "VIOLATION" in out
+        import re as _re
+        caught = bool(_re.search(r"mutant_run: exit=1\b", out)) or "VIOLATION" in out
         res[f"{ws}/{b} {' '.join(args)}".strip()] = {"caught": caught, "secs": round(dt), "output": out[-1200:]}
         print(key, f"check {b} {' '.join(args)}: caught={caught}", flush=True)
     meta["checks"] = res
